@@ -358,12 +358,82 @@ pub fn wide_tree(rep: &mut Report, prop: &str, n: u32, seed: u64) {
     }
 }
 
+// ------------------------------------------------------------------ one query that creates more than 2^20 terms
+
+/// On the thread-local manager of a fresh thread: terms obtained BEFORE a membership query that creates ~2n new
+/// terms must still be the very objects the same constructors return AFTER it, and must combine correctly with
+/// terms created after it.
+pub fn big_wrapper_query(rep: &mut Report, n: u32, seed: u64) {
+    use aws_smt_strings::smt_regular_expressions as w;
+    let case = format!("big-query {}", n);
+    let h = std::thread::Builder::new().stack_size(64 << 20).spawn(move || {
+        guard(|| -> Result<u64, String> {
+            let s = |v: &[u32]| SmtString::from(v);
+            let a = w::str_to_re(&s(&[0x61]));
+            let c = w::str_to_re(&s(&[0x63]));
+            let ac = w::re_union(a, c);
+            let before = w::verif_with_manager(|m| m.verif_terms().len());
+            let big = w::re_power(a, n);
+            let subject: Vec<u32> = vec![0x61; n as usize];
+            if !w::str_in_re(&s(&subject), big) {
+                return Err(format!("str_in_re(a^{0}, re_power(a, {0})) = false", n));
+            }
+            let after = w::verif_with_manager(|m| m.verif_terms().len());
+            let a2 = w::str_to_re(&s(&[0x61]));
+            let ac2 = w::re_union(a, c);
+            if !std::ptr::eq(a, a2) || !std::ptr::eq(ac, ac2) {
+                return Err(format!("after one str_in_re query that created {} terms, str_to_re(\"a\") / re_union(a, c) no longer return the terms they returned before it", after - before));
+            }
+            let b = w::str_to_re(&s(&[0x62]));
+            if b == a || a.verif_id() == b.verif_id() {
+                return Err(format!("after a query that created {} terms, the new term \"b\" compares equal to (or shares its id with) the old term \"a\"", after - before));
+            }
+            let u = w::re_union(a, b);
+            let (ia, ib, ic) = (w::str_in_re(&s(&[0x61]), u), w::str_in_re(&s(&[0x62]), u), w::str_in_re(&s(&[0x63]), u));
+            if !ia || !ib || ic {
+                return Err(format!("after a query that created {} terms: re_union(old \"a\", new \"b\") contains a = {}, b = {}, c = {} (expected true, true, false)", after - before, ia, ib, ic));
+            }
+            let i = w::re_inter(ac, w::re_comp(b));
+            if !w::str_in_re(&s(&[0x63]), i) || w::str_in_re(&s(&[0x62]), i) {
+                return Err("old and new terms do not combine correctly under re_inter / re_comp after the large query".into());
+            }
+            Ok((after - before) as u64)
+        })
+    });
+    let r = match h {
+        Ok(j) => j.join(),
+        Err(_) => {
+            rep.harness_error("cannot spawn thread".into());
+            return;
+        }
+    };
+    match r {
+        Ok(Ok(Ok(created))) => {
+            rep.inc("wrapper_queries_creating_more_than_a_million_terms");
+            rep.max("terms_created_by_one_query", created);
+            if created < (1 << 20) {
+                rep.harness_error(format!("the large query created only {} terms", created));
+            }
+        }
+        Ok(Ok(Err(e))) => viol(rep, "history", "big-query", e, seed, &case),
+        Ok(Err(msg)) => viol(rep, "history", "big-query-panic", format!("panicked: {}", msg), seed, &case),
+        Err(_) => rep.harness_error("big-query thread died".into()),
+    }
+}
+
 pub fn replay(text: &str, seed: u64, rep: &mut Report) -> bool {
     let tk: Vec<&str> = text.split_whitespace().collect();
     match tk.as_slice() {
         ["traversal", k, c] => {
             if let (Some(kind), Ok(c)) = (Trav::from_name(k), c.parse::<u32>()) {
                 traversal_gap(rep, kind, c, seed);
+                return true;
+            }
+            false
+        }
+        ["big-query", n] => {
+            if let Ok(n) = n.parse::<u32>() {
+                big_wrapper_query(rep, n, seed);
                 return true;
             }
             false
